@@ -271,6 +271,28 @@ static Reg r_loadraw("nn_loadraw", [](const Args& a) {
   emit("K");
 });
 
+// nn_loaddag N variant | E   or   K evaluations    — a crafted text image in which both child pointers of node i point to node i-1
+// (accepted by Node::Check: child < own index, bounds ordered): Search must not need more distance evaluations than a small
+// multiple of the number of points (each point is looked at once in a tree)
+struct Budget {};
+struct CountDist { long* n; long limit; D operator()(const Pt& a, const Pt& b) const { if (++*n > limit) throw Budget(); return std::llabs(a.x - b.x) + std::llabs(a.y - b.y); } };
+static Reg r_loaddag("nn_loaddag", [](const Args& a) {
+  int N = std::stoi(a[0]), variant = std::stoi(a[1]);
+  std::vector<Pt> pts(N); for (int i = 0; i < N; ++i) pts[i] = Pt{10 + (variant == 1 ? 0 : i), 0, 0, 0};
+  Pt q{0, 0, 0, 0};
+  std::ostringstream os; os << "1 -63 0 " << N << " " << N << " 0";
+  for (int i = 0; i < N; ++i) { long long dst = pts[i].x; os << "\n" << i << " 0 " << dst << " " << (i - 1) << " " << dst << " " << (variant == 2 ? dst : 1000) << " " << (i - 1); }
+  long cnt = 0; CountDist df{&cnt, 64L * N + 64};
+  NearestNeighbor<D, Pt, CountDist> nn; std::istringstream is(os.str());
+  std::string e = guarded([&] { nn.Load(is, false); });
+  if (e == "!E") { emit("E"); return; }
+  std::vector<int> ind; bool over = false;
+  try { nn.Search(pts, df, q, ind, 1); } catch (const Budget&) { over = true; }
+  emit("K " + std::to_string(cnt));
+  if (over) bad("loaded-search-cost", "Load accepted a " + std::to_string(N) + "-node image whose nodes share their children (child[0] = child[1] = i-1); Search(k=1) exceeded " +
+                std::to_string(64L * N + 64) + " distance evaluations (the cost is 2^N: an accepted file of ~1 kB makes Search run forever)");
+});
+
 inline std::string S(long long v) { return std::to_string(v); }
 
 inline void generate(Rng& r, bool thorough) {
@@ -280,7 +302,7 @@ inline void generate(Rng& r, bool thorough) {
     mindist = r.irange(0, 3) == 0 ? -1 : r.irange(0, 3) == 0 ? 0 : D(scale * r.pick(std::vector<double>{0.02, 0.05, 0.1, 0.3, 0.6, 0.9}));
   };
   auto size = [&]() { int c = r.irange(0, 9); return c == 0 ? r.irange(0, 3) : c < 6 ? r.irange(4, 60) : c < 9 ? r.irange(61, 300) : r.irange(301, 700); };
-  int N = thorough ? 6000 : 420;
+  int N = thorough ? 40000 : 3000;
   for (int i = 0; i < N; ++i) {
     int kind = r.irange(0, 9) < 8 ? r.irange(0, 3) : 4; int n = size(); if (kind == 4) n = std::min(n, 120);
     int bucket = r.irange(0, 10), via = r.irange(0, 2) ? 0 : r.irange(1, 3);
@@ -291,17 +313,18 @@ inline void generate(Rng& r, bool thorough) {
             (mindist > 0 ? ":mindist>0" : "") + (maxdist != DMAX ? ":maxdist" : "") + (via ? ":via-save-load" : "") + (!exh ? ":non-exhaustive" : "") + (tol ? ":tol" : "") + (bucket == 0 ? ":bucket0" : ""));
     run("nn_search", {S(kind), S(r.next() % 1000000), S(n), S(bucket), S(via), S(k), S(maxdist), S(mindist), S(exh), S(tol), S(r.next() % 1000000)});
   }
-  int NB = thorough ? 160 : 14;
+  int NB = thorough ? 600 : 60;
   for (int i = 0; i < NB; ++i) {
     int kind = r.irange(0, 3); int n = i == 0 ? 0 : i == 1 ? 1 : i % 4 == 2 ? r.irange(1200, 2000) : r.irange(2, 900);
     stratum(std::string("nn:bulk:") + (n > 1000 ? "large" : "medium")); run("nn_bulk", {S(kind), S(r.next() % 1000000), S(n), S(r.irange(0, 10)), S(thorough ? 40 : 16)});
   }
-  for (int i = 0; i < (thorough ? 24 : 3); ++i) { stratum("nn:geodesic-double"); run("nn_geo", {S(r.next() % 1000000), S(i == 0 ? 400 : r.irange(1, 250)), S(r.irange(0, 10)), S(thorough ? 12 : 6)}); }
-  int NL = thorough ? 12000 : 1200;
+  for (int i = 0; i < (thorough ? 100 : 12); ++i) { stratum("nn:geodesic-double"); run("nn_geo", {S(r.next() % 1000000), S(i == 0 ? 400 : r.irange(1, 250)), S(r.irange(0, 10)), S(thorough ? 12 : 6)}); }
+  int NL = thorough ? 60000 : 6000;
   for (int i = 0; i < NL; ++i) {
     int kind = r.irange(0, 3), n = r.irange(1, 40);
     stratum("nn:load-mutated-tokens"); run("nn_load", {S(kind), S(r.next() % 1000000), S(n), S(r.irange(0, 10)), S(r.next() % 1000000000), S(r.irange(0, 9) == 0 ? 0 : r.irange(1, 3)), S(r.next() % 1000000), S(r.irange(1, 4))});
   }
+  for (int i = 0; i < 3; ++i) { stratum("nn:load-shared-children"); run("nn_loaddag", {S(r.irange(30, 60)), S(i)}); }
   for (int i = 0; i < NL; ++i) {
     int kind = r.irange(0, 3), n = r.irange(1, 40); bool bin = r.coin();
     stratum(bin ? "nn:load-corrupt-binary" : "nn:load-corrupt-text"); run("nn_loadraw", {S(kind), S(r.next() % 1000000), S(n), S(r.irange(0, 10)), S(bin), S(r.next() % 1000000000), S(r.irange(1, 3))});
